@@ -12,6 +12,7 @@ import json
 import multiprocessing as mp
 import os
 import random
+import re
 import sys
 import time
 import traceback
@@ -170,7 +171,7 @@ class Ctx:
             os.remove(r.dump_path)
             os.remove(tpath)
             got = {}
-            for st in tlaval.parse_dump_parallel(text, 'ph = "ret"', processes=min(NCPU, 8)):
+            for st in _verdict_states(text):
                 if st.get("ph") == "ret":
                     got[st["i"]] = st
             if len(got) != len(chunk):
@@ -310,6 +311,45 @@ class Ctx:
               f"violations={len(seen)} known={sum(self.known_hits.values())} wall={wall:.1f}s")
         self.scratch.cleanup()
         return 1 if seen else 0
+
+
+_re_v_i = re.compile(r"/\\ i = (\d+)")
+_re_v_bool = {k: re.compile(r"/\\ %s = (TRUE|FALSE)" % k) for k in ("scope", "drift")}
+_re_v_set = {k: re.compile(r"/\\ %s = \{([^}]*)\}" % k, re.S) for k in ("failed", "triggers", "checked", "undecided")}
+_re_v_str = re.compile(r'"([^"]*)"')
+
+
+def _verdict_states(text):
+    """Fast path for the fixed verdict state (i, ph, failed, scope, triggers, drift, checked[, undecided]);
+    falls back to the general TLA+ value parser for any block that does not match."""
+    out = []
+    slow = []
+    for body in tlaval.iter_dump_blocks(text, 'ph = "ret"'):
+        m = _re_v_i.search(body)
+        st = {"ph": "ret"}
+        ok = m is not None
+        if ok:
+            st["i"] = int(m.group(1))
+            for k, rx in _re_v_bool.items():
+                mm = rx.search(body)
+                if mm:
+                    st[k] = mm.group(1) == "TRUE"
+                elif k == "scope":
+                    ok = False
+            for k, rx in _re_v_set.items():
+                mm = rx.search(body)
+                if mm:
+                    st[k] = frozenset(_re_v_str.findall(mm.group(1)))
+                elif k in ("failed",):
+                    ok = False
+            # any other variable in the block (beyond the known ones) is ignored
+        if ok:
+            out.append(st)
+        else:
+            slow.append(body)
+    if slow:
+        out += [tlaval.parse_state_body(b) for b in slow]
+    return out
 
 
 def _slim(rec, limit=1500):
